@@ -496,7 +496,8 @@ func TrackerWF(t *SessionTracker) bool {
 // C02: a failing sub-key of NOT / OR is reported, never turned into success.
 
 //@ func readSearchKeyWithAtom(criteria *imap.SearchCriteria, dec *imapwire.Decoder, key string) (err error)
-//@   props C02:post C19:post
+//@   props C02:post,pre@call C19:post,pre@call
+//@   requires criteria != nil
 //@   ensures __called("readSearchKey") && __failed("readSearchKey") ==> err != nil
 //@   ensures len(criteria.NotFlag) >= old(len(criteria.NotFlag)) && len(criteria.Flag) >= old(len(criteria.Flag))
 //@   ensures old(criteria.Larger) >= 0 && old(criteria.Smaller) >= 0 ==> criteria.Larger >= 0 && criteria.Smaller >= 0
